@@ -32,6 +32,7 @@ from tawazi.config import cfg
 from tawazi.consts import ARG_NAME_ACTIVATE, RVDAG, Identifier, P, Tag
 from tawazi.errors import TawaziTypeError, TawaziUsageError
 from tawazi.node import Alias, ArgExecNode, ExecNode, ReturnUXNsType, UsageExecNode, node
+from tawazi.node.helpers import _lazy_xn_id
 from tawazi.node.node import LazyExecNode, make_active, make_axn_id
 from tawazi.profile import Profile
 
@@ -695,7 +696,14 @@ class DAG(BaseDAG[P, RVDAG]):
 
             # NOTE: can't call the base describing function because composed DAGs can't be supported in that case
             #  so must modify ExecNodes of SubDAG
-            node.DAG_PREFIX.append(self.qualname)
+            # every call site of the same SubDAG gets its own prefix (same convention as reused ExecNodes)
+            usage = 0
+            while any(
+                id_.startswith(".".join(node.DAG_PREFIX + [_lazy_xn_id(self.qualname, usage)]) + ".")
+                for id_ in node.exec_nodes
+            ):
+                usage += 1
+            node.DAG_PREFIX.append(_lazy_xn_id(self.qualname, usage))
 
             def to_subdag_id(id_: str) -> str:
                 return ".".join(node.DAG_PREFIX + [id_])
